@@ -4,6 +4,7 @@
 
   Model of: src/tools.rs (do_divition), the f64 operations used by src/compiler/*.rs.
 -/
+import SC.FloatFmt
 namespace SC
 
 /-- The arithmetic the calculator performs on `f64`.  `Float` instance: the hardware
@@ -24,6 +25,32 @@ class Num (F : Type) where
   toInt : F → Int
   lt : F → F → Bool
   beq : F → F → Bool
+  /-- `f64::trunc` -/
+  trunc : F → F
+  /-- `f64::abs` -/
+  abs : F → F
+  /-- the value `num / den` (sign `neg`) nearest in `F`: decimal literals and constants -/
+  ofRat : Bool → Nat → Nat → F
+  /-- `str::parse::<f64>` on `sign? digits ('.' digits)?` strings -/
+  parseDec : List Char → Option F
+  /-- `f64::to_string` -/
+  short : F → String
+  /-- `format!("{:.N}", x)` -/
+  fixed : F → Nat → String
+
+def ratFixed (x : Rat) (n : Nat) : String :=
+  let (ip, fp) := fixedParts x.num.natAbs x.den n
+  String.ofList ((if x < 0 then ['-'] else []) ++ ip ++ (if n = 0 then [] else '.' :: fp))
+
+/-- exact decimal expansion when it terminates within 40 digits, else `num/den` -/
+def ratShort (x : Rat) : String :=
+  match (List.range 41).find? (fun k => (10 ^ k) % x.den = 0) with
+  | some k =>
+    let s := ratFixed x k
+    if k = 0 then s else
+      let cs := (s.toList.reverse.dropWhile (· = '0')).reverse
+      String.ofList (if cs.getLast? = some '.' then cs.dropLast else cs)
+  | none => toString x.num ++ "/" ++ toString x.den
 
 instance : Num Rat where
   add := (· + ·)
@@ -37,6 +64,15 @@ instance : Num Rat where
   toInt := fun x => if x < 0 then -((-x).floor) else x.floor
   lt := fun a b => decide (a < b)
   beq := fun a b => decide (a = b)
+  trunc := fun x => if x < 0 then -(((-x).floor : Int) : Rat) else ((x.floor : Int) : Rat)
+  abs := fun x => if x < 0 then -x else x
+  ofRat := fun neg n d => if neg then -((n : Rat) / (d : Rat)) else (n : Rat) / (d : Rat)
+  parseDec := fun cs => (parseDecimalRat cs).map fun (neg, n, d) =>
+    if neg then -((n : Rat) / (d : Rat)) else (n : Rat) / (d : Rat)
+  short := ratShort
+  fixed := ratFixed
+
+def floatTrunc (x : Float) : Float := if x < 0 then x.ceil else x.floor
 
 def floatToInt (x : Float) : Int :=
   if x.isNaN then 0
@@ -56,6 +92,12 @@ instance : Num Float where
   toInt := floatToInt
   lt := fun a b => a < b
   beq := fun a b => a == b
+  trunc := floatTrunc
+  abs := Float.abs
+  ofRat := ratToFloat
+  parseDec := parseF64
+  short := shortStr
+  fixed := fixedStr
 
 variable {F : Type} [Num F]
 
